@@ -367,6 +367,37 @@ func TestC03Protocol(t *testing.T) {
 	}, checkC03Protocol)
 }
 
+// TestC03SackHoles: where a SACK run ends when the target's acknowledgements report several separated blocks. The
+// target is d hops away (d-1 routers answer before it); the byte of TTL a is received but its acknowledgement is
+// lost and the next h probes are lost, so the first acknowledgement read names two blocks with a hole between
+// them; the connection's first sequence number puts the 2^32 wrap at every position relative to the blocks.
+func TestC03SackHoles(t *testing.T) {
+	rec := NewRecorder("C03", "C03SackHoles", "SACK runs whose first acknowledgement reports two blocks with a hole between them: target distance 1..3 x acknowledged-but-unreported TTL a in d..d+2 x hole of 1 or 2 lost probes x 2^32 wrap at offsets 0..8 from the first probe x strict/relaxed; exhaustive over that product")
+	rec.Exhaustive = true
+	RunCases(t, rec, func(yield func(*Scenario) bool) {
+		for d := 1; d <= 3; d++ {
+			for a := d; a <= d+2; a++ {
+				for hole := 1; hole <= 2; hole++ {
+					for k := 0; k <= 8; k++ {
+						for _, strict := range []bool{true, false} {
+							hops := map[int]HopSpec{a: {DelayUs: 5000, AckLost: true}}
+							for i := 1; i <= hole; i++ {
+								hops[a+i] = HopSpec{Silent: true}
+							}
+							sc := &Scenario{Variant: "sack", Strict: strict, MinTTL: 1, MaxTTL: 8, TimeoutMs: 300, DelayMs: 10, PollMs: 10, Target: "127.9.8.7", Port: 0,
+								Script: FlowScript{DestDist: d, Default: HopSpec{DelayUs: 5000}, Hops: hops},
+								Sack:   SackCfg{Permit: true, TS: k%2 == 0, ClientNxt: uint32(0x100000000 - int64(k)), ServerISN: 5, SynAckUs: 100}}
+							if !yield(sc) {
+								return
+							}
+						}
+					}
+				}
+			}
+		}
+	}, checkC03Protocol)
+}
+
 // ---- C04 ----
 
 func checkC04(t *testing.T, sc *Scenario, rec *Recorder) []Diff {
